@@ -70,6 +70,7 @@ SLICES = {
     'internal': (BASE + ('internal', 'modsubs'), X.tf_internal, ap_intsub, 3),
     'internal-lbounds': (('select', 'while', 'exitcycle', 'internal', 'lbshift'), X.tf_internal, ap_intsub, 1),
     'internal-optional': (('select', 'internal', 'optional'), X.tf_internal, X.need(ap_intsub, 'optional-absent|optional-present'), 1),
+    'internal-inlineif': (('internal', 'callinlineif', 'exitcycle'), X.tf_internal, X.need(ap_intsub, 'call-in-inline-if'), 1),
     'internal-nestedsub': (('internal', 'nestedsub'), X.tf_internal, X.need(ap_intsub, 'nested-subscript'), 1),
     'internal-fn': (('internal', 'internalfn'), X.tf_internal, ap_internal, 1),
     'functions': (BASE + ('functions', 'elemental'), X.tf_functions(), ap_functions, 3),
